@@ -16,6 +16,8 @@ INVARIANT NoDangling
 INVARIANT FinalizeOncePerCollection
 INVARIANT DropAtMostOnce
 INVARIANT UpgradeIffLive
+INVARIANT EphValueIffKeyLive
+INVARIANT NoMarkedCleared
 INVARIANT EphValueOnlyWhileKeyLive
 PROPERTY RefStep
 CHECK_DEADLOCK FALSE
